@@ -403,3 +403,62 @@ Lemma src_guards_are_modelled :
   forall L, (src_len_rhs L = L + 2)%Z.
 Proof. repeat split; try reflexivity; intros L; unfold src_len_rhs; lia. Qed.
 """
+
+
+# ---------------------------------------------------------------------------
+# graph/utils.network_to_dataframe: column lists  ->  Export.all_masks_ok
+# ---------------------------------------------------------------------------
+def export_facts():
+    tree = parse("causationentropy/graph/utils.py")
+    f = func(tree, "network_to_dataframe")
+    params = [a.arg for a in f.args.args][1:]
+    loop = one((n for n in f.body if isinstance(n, ast.For)), "edge loop")
+    chain = []
+    for st in loop.body:
+        if isinstance(st, ast.If):
+            t = src(st.test).replace(" ", "")
+            if not (t.endswith("isnotNone") and len(st.body) == 1 and isinstance(st.body[0], ast.Assign)):
+                raise Unavailable(f"metadata guard `{t}`")
+            arg = t[:-len("isnotNone")]
+            tgt = st.body[0].targets[0]
+            if not (isinstance(tgt, ast.Subscript) and is_name(tgt.value, "edge_dict") and isinstance(tgt.slice, ast.Constant)
+                    and is_name(st.body[0].value, arg)):
+                raise Unavailable("metadata assignment shape")
+            chain.append((arg, tgt.slice.value))
+    if [a for a, _ in chain] != params:
+        raise Unavailable(f"if-chain arguments {[a for a, _ in chain]} differ from the signature order {params}")
+    d0 = one((st for st in loop.body if isinstance(st, ast.Assign) and is_name(st.targets[0], "edge_dict")), "edge_dict literal")
+    base_keys = [k.value for k in d0.value.keys]
+    vals = [src(v).replace(" ", "").replace('"', "'") for v in d0.value.values]
+    if vals != ["u", "v", "data.get('lag',0)", "data.get('cmi',None)", "data.get('p_value',None)"]:
+        raise Unavailable(f"base row values {vals}")
+    order = None
+    bases = []
+    for n in ast.walk(f):
+        if isinstance(n, ast.Assign) and is_name(n.targets[0], "metadata_order") and isinstance(n.value, ast.List):
+            order = [e.value for e in n.value.elts]
+        if isinstance(n, ast.Assign) and is_name(n.targets[0], "base_cols") and isinstance(n.value, ast.List):
+            bases.append([e.value for e in n.value.elts])
+    s = _stmts(f)
+    if order is None or not bases or "final_col_order=base_cols+[colforcolinmetadata_orderifcolindf.columns]" not in s \
+            or "df=df[final_col_order]" not in s or "returnpd.DataFrame(columns=base_cols)" not in s:
+        raise Unavailable("column ordering statements")
+    return {"chain": [c for _, c in chain], "order": order, "base_row": base_keys, "base_cols": bases}
+
+
+def coq_export_facts(f):
+    ql = lambda xs: "[" + "; ".join('"%s"' % x for x in xs) + "]"
+    return f"""From Coq Require Import String List.
+From CE Require Import Model.Export.
+Import ListNotations.
+Open Scope string_scope.
+Definition src_chain : list string := {ql(f['chain'])}.
+Definition src_order : list string := {ql(f['order'])}.
+Definition src_base_row : list string := {ql(f['base_row'])}.
+Definition src_base_cols : list (list string) := [{"; ".join(ql(b) for b in f['base_cols'])}].
+(* with the lists the source contains NOW, all 2^9 metadata subsets give the documented frame *)
+Lemma src_all_512_subsets_ok : all_masks_ok src_chain src_order = true.
+Proof. vm_compute. reflexivity. Qed.
+Lemma src_base_columns : src_base_row = base_cols /\\ forallb (fun b => strs_eqb b base_cols) src_base_cols = true.
+Proof. split; reflexivity. Qed.
+"""
